@@ -97,7 +97,7 @@ add("F151", "C11", "open", "'10:30 EST to 12:45 EST' is an error: the difference
     signature="T1 Z to T2 Z with the same explicit zone AND Err(No more token)")
 
 add("F152", "C10", "fixed", "'a b c as hours' with three names bound to durations converted only the LAST name (26 hours + 108 seconds + floor(76 minutes) instead of the floored sum; two names, four names and literal parts were right): the conversion rule is tried before the combining rule and matched the last duration alone",
-    {"sub": "duration-names-in-a-row", "case": {"groups": [[{"count": 26, "unit": 2, "spelling": 0, "group": False}], [{"count": 108, "unit": 0, "spelling": 0, "group": False}], [{"count": 76, "unit": 1, "spelling": 0, "group": False}]], "conv": [0, 2]}}, commit="cf09ca9")
+    {"sub": "duration-names-in-a-row", "case": {"groups": [[{"count": 26, "unit": 2, "spelling": 0, "group": False}], [{"count": 108, "unit": 0, "spelling": 0, "group": False}], [{"count": 76, "unit": 1, "spelling": 0, "group": False}]], "conv": [0, 2], "tr": False}}, commit="cf09ca9")
 
 # ---- C12 -------------------------------------------------------------------------------------
 def u(i, n=0): return {"unit": i, "name": n}
